@@ -236,6 +236,9 @@ class GroupSpec(SeqSpec):
             else:
                 ops = self.gen_mix(rng)
             cases.append({"component": "group", "ops": ops, "cfg": {}})
+        # brute-force trials of the nanosecond windows inside spawn (registration racing StopAndWait)
+        for _ in range(6 if tier == "quick" else 60):
+            cases.append({"component": "group", "ops": [["hammer", int(400 * scale) + 1, rng.choice([2, 3]), rng.randrange(1 << 30)]], "cfg": {}})
         return cases
 
     # ------------------------------------------------------------------ Coq printing
@@ -283,6 +286,13 @@ class GroupSpec(SeqSpec):
         """The clauses of C17 evaluated on the recorded history."""
         fails = []
         evs = obs["obs"]
+        if evs and evs[0][0] == "hammer":
+            _, iters, late, running = evs[0]
+            if late:
+                fails.append(("hammer:run-after-stopandwait", "in %d of %d trials of registrations racing StopAndWait a function entered after StopAndWait had returned" % (late, iters)))
+            if running:
+                fails.append(("hammer:running-at-stopandwait-return", "in %d of %d trials of registrations racing StopAndWait a function was running when StopAndWait returned" % (running, iters)))
+            return fails
         regs, trigs, stops = self.config_of(case)
         conclusive = obs.get("aux", {}).get("quiescent", True) and not obs.get("aux", {}).get("await_timeouts", 0)
         enter_idx, exit_idx = {}, {}
@@ -396,6 +406,9 @@ class GroupSpec(SeqSpec):
         return fails
 
     def stats(self, case, obs, acc):
+        if case["ops"] and case["ops"][0][0] == "hammer":
+            acc["hammer_trials"] = acc.get("hammer_trials", 0) + case["ops"][0][1]
+            return
         d = acc.setdefault("scenarios", {"kinds": {}, "stops": {}, "races": 0, "trigger_calls": 0, "cancels": 0})
         for op in flat_ops(case["ops"]):
             if op[0] == "reg":
@@ -416,5 +429,7 @@ class GroupSpec(SeqSpec):
         acc["f_runs_total"] = acc.get("f_runs_total", 0) + sum(1 for e in obs["obs"] if e[0] == "f-enter")
 
     def nontrivial(self, case, obs):
+        if case["ops"] and case["ops"][0][0] == "hammer":
+            return True
         ops = list(flat_ops(case["ops"]))
         return any(o[0] == "reg" for o in ops) and any(o[0] in ("stop", "cancel", "trig") for o in ops)
